@@ -63,6 +63,100 @@ def _none_is_overwritten_when_flag_set(f, o):
     return False
 
 
+def labelled_events(prog):
+    """(codegen events, tracker events, codegen sinks, tracker sinks)"""
+    lab = events.Labeller(prog)
+    cg = [f for k, f in prog.fns.items() if k.startswith(G)]
+    mt = [f for k, f in prog.fns.items() if k.startswith(M)]
+    csinks = {G + "compile_expr": ("eval", 1), G + "compile_stmt": ("eval", 1), G + "compile_assignment": ("assign", 1),
+              G + "compile_call_args": ("eval", 1), G + "compile_call": ("eval", 1), G + "compile_emit_expr": ("eval", 1)}
+    msinks = {M + "tracker_visit_expr": ("eval", 0), M + "tracker_visit_expr_opt": ("eval", 0), M + "track_walk": ("eval", 0),
+              M + "track_assign": ("assign", 0), M + "tracker_visit_callarg": ("eval", 0), M + "tracker_visit_macro": ("eval", 0)}
+    return (list(events.collect(prog, lab, cg, csinks)), list(events.collect(prog, lab, mt, msinks)), csinks, msinks)
+
+
+def check_statement_lists_walked(ctx, prog, tag, rule, ce, me):
+    """every statement list the code generator compiles is walked, under its own label, by the tracker (which also
+    decides what macros enclose): a list walked only as the tail of another one is walked in the wrong scope"""
+    n = 0
+    have = {(m.T, m.field[:1]) for m in me if m.kind == "eval" and (m.sink or "").endswith("::track_walk")}
+    seen = set()
+    for e in ce:
+        if e.kind != "eval" or not e.field or not (e.sink or "").endswith("::compile_stmt"):
+            continue
+        key = (e.T, e.field[:1])
+        if key in seen:
+            continue
+        seen.add(key)
+        n += 1
+        ctx.ob(rule, "%s%s.%s" % (tag, e.T.split("::")[-1], e.field[0]), key in have,
+               "the code generator compiles the statements of %s.%s but the tracker does not walk that list on its own: the "
+               "names assigned and read there are attributed to the wrong scope" % (e.T.split("::")[-1], e.field[0]), e.site)
+    return n
+
+
+def check_scope_mirroring(ctx, prog, tag, rule, ce, me):
+    """W6 / C05.B9: the tracker's scopes mirror the engine's frames.  Where the code generator closes a frame between two
+    parts of a node it evaluates (the loop frame ends - `end_for_loop`, or `PopFrame` / `PopLoopFrame` is emitted -
+    before the for-else body is compiled), the tracker pops a scope between its visits of the same two parts.  If it
+    does not, names bound in the first part (the loop target, `loop`, a `set` in the body) still count as assigned in
+    the second: macros there do not enclose an outer variable of that name, and undeclared_variables() omits it."""
+    from ..brackets import GEN as _GEN
+    closers_cg = {}
+    for f in {e.fn for e in ce}:
+        bbs = set()
+        for c in f.calls():
+            if c.name == _GEN + "::end_for_loop":
+                bbs.add(c.bb)
+            if c.name in (_GEN + "::add", _GEN + "::add_with_span") and len(c.args) > 1 and any(
+                    o.kind == "agg" and o.rv.get("variant") in ("PopFrame", "PopLoopFrame") for o in flow.origins(f, c.args[1])):
+                bbs.add(c.bb)
+        closers_cg[f.path] = bbs
+    pops_tr = {}
+    for f in {e.fn for e in me}:
+        pops_tr[f.path] = {c.bb for c in f.calls() if c.name == M + "AssignmentTracker::pop"}
+
+    def between(f, a_bb, b_bb, mids):
+        if a_bb in cfg.reach_from(f, b_bb):
+            return False            # b can run before a (same loop): no fixed order
+        for m_ in mids:
+            if m_ in cfg.reach_from(f, a_bb) and b_bb in cfg.reach_from(f, m_):
+                # and no way from a to b around m
+                if b_bb not in cfg.reach_from(f, a_bb, avoid={m_}):
+                    return True
+        return False
+    n = 0
+    byT = {}
+    for e in ce:
+        if e.kind == "eval" and e.field:
+            byT.setdefault(e.T, []).append(e)
+    for T, evs in sorted(byT.items()):
+        short = T.split("::")[-1]
+        for a in evs:
+            for b in evs:
+                if a is b or a.fn is not b.fn or a.field[0] == b.field[0] or a.bb == b.bb:
+                    continue
+                # only statement lists bind arbitrary names (`set`, nested loops); what an expression part's frame binds
+                # (the loop target of the filter pre-pass) is bound again for the part that follows
+                if not (a.sink or "").endswith("::compile_stmt"):
+                    continue
+                if not between(a.fn, a.bb, b.bb, closers_cg.get(a.fn.path, ())):
+                    continue
+                ta = [m for m in me if m.kind == "eval" and m.T == T and m.field[:1] == a.field[:1]]
+                tb = [m for m in me if m.kind == "eval" and m.T == T and m.field[:1] == b.field[:1]]
+                pairs = [(x, y) for x in ta for y in tb if x.fn is y.fn]
+                if not pairs:
+                    continue
+                n += 1
+                ok = all(x.bb != y.bb and between(x.fn, x.bb, y.bb, pops_tr.get(x.fn.path, ())) for x, y in pairs)
+                ctx.ob(rule, "%s%s|%s..%s" % (tag, short, a.field[0], b.field[0]), ok,
+                       "the engine ends a frame between %s.%s and %s.%s, but the tracker keeps its scope open across both: a "
+                       "name bound in the first part still counts as assigned in the second (macros there do not enclose the "
+                       "outer variable, undeclared_variables() omits it)" % (short, a.field[0], short, b.field[0]),
+                       pairs[0][1].site)
+    return n
+
+
 def run(ctx):
     ctx.explain("C18: sibling cross-check by labelled events: every call of an evaluating function in the code "
                 "generator and of a visiting function in the tracker is labelled with (AST node type, payload field "
@@ -76,16 +170,9 @@ def run(ctx):
     for cname in ctx.configs():
         prog = ctx.program(cname)
         tag = "" if cname == "MAX" else "[%s]" % cname
-        lab = events.Labeller(prog)
-        cg = [f for k, f in prog.fns.items() if k.startswith(G)]
         mt = [f for k, f in prog.fns.items() if k.startswith(M)]
         ctx.need(len(mt) >= 8, "C18: tracker functions not found")
-        csinks = {G + "compile_expr": ("eval", 1), G + "compile_stmt": ("eval", 1), G + "compile_assignment": ("assign", 1),
-                  G + "compile_call_args": ("eval", 1), G + "compile_call": ("eval", 1), G + "compile_emit_expr": ("eval", 1)}
-        msinks = {M + "tracker_visit_expr": ("eval", 0), M + "tracker_visit_expr_opt": ("eval", 0), M + "track_walk": ("eval", 0),
-                  M + "track_assign": ("assign", 0), M + "tracker_visit_callarg": ("eval", 0), M + "tracker_visit_macro": ("eval", 0)}
-        ce = [e for e in events.collect(prog, lab, cg, csinks)]
-        me = [e for e in events.collect(prog, lab, mt, msinks)]
+        ce, me, csinks, msinks = labelled_events(prog)
         ctx.floor("C18 labelled codegen events" + tag, len(ce), 60 if cname != "MIN" else 45)
         ctx.floor("C18 labelled tracker events" + tag, len(me), 60 if cname != "MIN" else 45)
 
@@ -131,6 +218,9 @@ def run(ctx):
                    "reported" % (T, fld, e.site), e.site)
         ctx.floor("C18.W1 evaluations inside assignment targets" + tag, n1b, 1)
 
+        # ---- W6
+        n6 = check_scope_mirroring(ctx, prog, tag, "C18.W6.tracker-scope-ends-where-the-engine's-frame-ends", ce, me)
+        ctx.floor("C18.W6 frame ends between two evaluated parts of a node" + tag, n6, 1)
         # ---- W2
         n2 = 0
         for T in sorted(ct):
